@@ -251,7 +251,7 @@ class Session:
         self.cfg, self.lab = cfg, lab
         self.built = Built(lab, hw=hw, channels=channels, seed=seed)
         self.tmp = tempfile.mkdtemp(prefix="verif_c11_") if cfg["chunks"] else None
-        self.ds, self.snap0 = None, None
+        self.ds, self.snap0, self.last = None, None, None
 
     def close(self):
         if self.tmp:
@@ -291,11 +291,29 @@ class Session:
             pz = [1 if (z[2 * e] and z[2 * e + 1]) else 0 for e in range(len(z) // 2)]
         return pts, zero, pz
 
+    def calls(self):
+        """Event per helper of the functional API applied to the tensors of the sample returned last."""
+        evs = []
+        if self.last is None:
+            return evs
+        for name, thunk in sample_calls(self.cfg, self.last):
+            ev = dict(op="call", f=name, raised="", cache=[], lab=0, mem=[])
+            try:
+                thunk()
+            except Exception as e:  # noqa: BLE001
+                ev["raised"] = "%s: %s" % (type(e).__name__, str(e)[:200])
+            ev["cache"] = store_classes(store_snapshot(self.ds, self.cfg, self.tmp), self.snap0, self.cfg)
+            ev["lab"] = self.built.labels_class()
+            ev["mem"] = self.built.membership()
+            evs.append(ev)
+        return evs
+
     def get(self, i0, ref):
         """__getitem__(i0) (0-based); ref = the sample of a fresh dataset for i0 (or None: no res class)."""
         ev = dict(op="get", i=i0 + 1, raised="", res=0, cache=[], pts=[], zero=[], pzero=[], lab=0, mem=[])
         try:
             s = self.ds[i0]
+            self.last = s
             ev["pts"], ev["zero"], ev["pzero"] = self.observe_sample(s)
             if ref is not None:
                 ev["res"] = 0 if same_value(s, ref) else 1
@@ -305,6 +323,44 @@ class Session:
         ev["lab"] = self.built.labels_class()
         ev["mem"] = self.built.membership()
         return ev
+
+
+def sample_calls(cfg, s):
+    """The functional API applied to the tensors of a returned sample `s` (the caller's tensors; in memory
+    mode the frame-level classes hand out the cached tensors themselves): [(name, thunk)]."""
+    from sleap_nn.data.instance_centroids import generate_centroids
+    from sleap_nn.data.instance_cropping import make_centered_bboxes
+    from sleap_nn.data.resizing import apply_resizer, apply_pad_to_stride
+    from sleap_nn.data.augmentation import apply_geometric_augmentation, apply_intensity_augmentation
+    from sleap_nn.data.confidence_maps import generate_confmaps, generate_multiconfmaps
+    from sleap_nn.data.edge_maps import generate_pafs
+
+    cls = cfg["cls"]
+    a_ind = None if cfg["anchor"] == 0 else cfg["anchor"] - 1
+    pts = s[PTS_KEY[cls]]
+    img = s["instance_image"] if cls == "centered" else s["image"]
+    hw = tuple(int(x) for x in img.shape[-2:])
+    calls = [("generate_centroids", lambda: generate_centroids(pts, anchor_ind=a_ind)),
+             ("generate_confmaps", lambda: generate_confmaps(pts, img_hw=hw, sigma=1.5, output_stride=2)),
+             ("apply_resizer", lambda: apply_resizer(img, pts, scale=0.5)),
+             ("apply_pad_to_stride", lambda: apply_pad_to_stride(img, max_stride=32)),
+             ("apply_geometric_augmentation", lambda: apply_geometric_augmentation(img, pts, rotation=15.0, scale=(0.9, 1.1), affine_p=1.0)),
+             ("apply_intensity_augmentation", lambda: apply_intensity_augmentation(img, pts, contrast_p=1.0, brightness=0.1, brightness_p=1.0))]
+    if cls != "centered":
+        ni = int(pts.shape[1])
+        nn = int(pts.shape[2])
+        calls.append(("generate_multiconfmaps", lambda: generate_multiconfmaps(pts, img_hw=hw, num_instances=ni, sigma=1.5, output_stride=2)))
+        if nn >= 2:
+            ei = torch.tensor([[e, e + 1] for e in range(nn - 1)], dtype=torch.int32)
+            calls.append(("generate_pafs", lambda: generate_pafs(pts, img_hw=hw, sigma=4, output_stride=4, edge_inds=ei, flatten_channels=True)))
+    if cls == "centroid":
+        ctr = s["centroids"]
+        calls.append(("make_centered_bboxes", lambda: make_centered_bboxes(ctr[0], 16, 16)))
+        calls.append(("generate_multiconfmaps", lambda: generate_multiconfmaps(ctr, img_hw=hw, num_instances=int(ctr.shape[1]), sigma=1.5, output_stride=2, is_centroids=True)))
+    if cls == "centered":
+        ctr = s["centroid"]
+        calls.append(("make_centered_bboxes", lambda: make_centered_bboxes(ctr, 16, 16)))
+    return calls
 
 
 def fresh_sample(cfg, lab, i0, **kw):
@@ -317,15 +373,19 @@ def fresh_sample(cfg, lab, i0, **kw):
         s.close()
 
 
-def replay(cfg, lab, reads, refs=None, **kw):
-    """Build + reads (1-based indices) on a fresh real dataset -> list of events.  refs: {i0: sample}."""
+def replay(cfg, lab, reads, refs=None, calls_after=None, **kw):
+    """Build + reads (1-based indices) on a fresh real dataset -> list of events.  refs: {i0: sample}.
+    calls_after = k: after the k-th read the functional API is applied to the returned sample's tensors
+    (one "call" event per helper), then the reads continue."""
     refs = {} if refs is None else refs
     s = Session(cfg, lab, **kw)
     try:
         evs = [s.build()]
         if evs[0]["raised"]:
             return evs
-        for i in reads:
+        for k, i in enumerate(reads):
+            if calls_after is not None and k == calls_after:
+                evs += s.calls()
             i0 = i - 1
             if i0 not in refs:
                 try:
